@@ -18,6 +18,10 @@ from checks.c07 import mk_pool, mk_addr
 from harness.server_state import mk_client
 
 FROZEN = 1 << 40
+PARAM_DEFAULTS = {'client_encoding': b'UTF8', 'DateStyle': b'ISO, MDY', 'TimeZone': b'Etc/UTC', 'standard_conforming_strings': b'on',
+                  'application_name': b'pgcat'}
+PARAM_CANON = {k.lower(): k for k in PARAM_DEFAULTS}
+SET_RX = re.compile(r"^SET\s+(?:SESSION\s+)?([A-Za-z_]+)\s*(?:TO|=)\s*(?:'((?:[^']|'')*)'|([^\s;']+))$", re.I)
 
 
 # ----------------------------------------------------------------------------------------------- wire helpers
@@ -110,6 +114,7 @@ class MockPg:
         self.named_names = []
         self.closed = False
         self.last_delivered = None
+        self.params = dict(PARAM_DEFAULTS)   # the reported (GUC_REPORT) session parameters pgcat tracks
         self.stmts = {}                      # extended protocol: statement name -> SQL text (None when not concrete)
         self.portals = {}                    # portal name -> statement name
         self.nreq = 0
@@ -162,7 +167,7 @@ class MockPg:
     def on_message(self, m):
         code = chr(m[0].v)
         env = self.env_ref[0] if self.env_ref else None
-        req = {'n': self.nreq, 'bytes': m, 'replies': [], 'delivered': [], 'code': code,
+        req = {'n': self.nreq, 'bytes': m, 'replies': [], 'delivered': [], 'code': code, 'params_before': dict(self.params),
                'g': env.tick() if env else self.nreq,
                'client_pos': env.client_stream.pos if env else 0, 'client_done': env.client_done() if env else False}
         self.cur = req
@@ -353,14 +358,26 @@ class MockPg:
                     self.role_set = True
                 out.append(self.emit(req, 'C', b'SET\0'))
             elif u.startswith('SET '):
-                if self.st_is('I'):
+                mm = SET_RX.match(s.strip())
+                tracked = bool(mm and mm.group(1).lower() in PARAM_CANON)
+                # tracked parameters are carried from client to client by the parameter sync at checkout (C12), not by RESET ALL
+                if self.st_is('I') and not tracked:
                     self.dirty_set = True
+                if tracked:
+                    key = PARAM_CANON[mm.group(1).lower()]
+                    val = (mm.group(2).replace("''", "'") if mm.group(2) is not None else mm.group(3)).encode('latin1')
+                    self.params[key] = val
+                    out.append(self.emit(req, 'S', key.encode() + b'\0' + val + b'\0'))
                 out.append(self.emit(req, 'C', b'SET\0'))
             elif u == 'RESET ROLE':
                 self.role_set = False
                 out.append(self.emit(req, 'C', b'RESET\0'))
             elif u == 'RESET ALL':
                 self.dirty_set = False
+                for key, dv in PARAM_DEFAULTS.items():
+                    if self.params[key] != dv:
+                        self.params[key] = dv
+                        out.append(self.emit(req, 'S', key.encode() + b'\0' + dv + b'\0'))
                 out.append(self.emit(req, 'C', b'RESET\0'))
             elif u == 'DISCARD ALL':
                 self.dirty_set = self.role_set = self.sql_prepared = False
@@ -722,7 +739,7 @@ def collect(env):
         b.pg.pump()
         for r in b.pg.requests:
             reqs.append(dict(g=r['g'], backend=b.idx, bytes=r['bytes'], delivered=r['delivered'], status_after=r.get('status_after'),
-                             client_done=r['client_done']))
+                             client_done=r['client_done'], params_before=r.get('params_before')))
     reqs.sort(key=lambda x: x['g'])
     handovers = []
     for b in env.backends:
@@ -749,7 +766,8 @@ def collect_native(res):
         if r['phase'] in (1, 3):
             seen_a.add(r['conn'])
             reqs.append(dict(g=r['g'], backend=r['conn'] // 100, bytes=bvs(r['hex']), delivered=[bvs(d) for d in r['delivered']],
-                             status_after=BV(8, r['status_after']), client_done=(r['phase'] == 3)))
+                             status_after=BV(8, r['status_after']), client_done=(r['phase'] == 3),
+                             params_before={k: v.encode('latin1') for k, v in r['before'].get('params', {}).items()} or None))
         elif r['phase'] == 2 and r['conn'] in seen_a and r['conn'] not in probed:
             # the next client got the very same server connection: this is the hand-over
             probed.add(r['conn'])
@@ -900,7 +918,8 @@ def judge(data, script, dec, expect_forward=None, cache_on=False, denied=None, e
             xi += 1
             continue
         code = chr(m[0].v)
-        if code in 'EZ' or (code in '13' and cache_on) or (code in 'CTDS' and allow_pooler_replies):
+        if code in 'EZ' or (code in '13' and cache_on) or (code in 'CTDS' and allow_pooler_replies) or code == 'S':
+            # (ParameterStatus may also be produced by the pooler: it tells the client the values in force)
             continue
         V.append(('C03', 'H/client-received-unexpected', 'the client received %s which is not the next reply of its backend (%s)' %
                   (show(m[:40]), show(expected[xi][:40]) if xi < len(expected) else 'none outstanding')))
